@@ -388,6 +388,9 @@ impl Ctx {
     pub fn finish_replay(self) -> i32 {
         if !self.violations.is_empty() {
             1
+        } else if crate::sut::cli::cli_timeouts() > 0 {
+            println!("{} replay: mos was killed by the watchdog (inconclusive)", self.id);
+            2
         } else {
             println!("{} replay: property held on the stored case (known findings: {})", self.id, self.known_hit.len());
             0
@@ -395,6 +398,10 @@ impl Ctx {
     }
 
     pub fn finish(mut self) -> i32 {
+        let killed = crate::sut::cli::cli_timeouts();
+        if killed > 0 {
+            self.health_problems.push(format!("{} invocation(s) of mos were killed by the watchdog after {} s (inconclusive, not a violation)", killed, crate::sut::cli::cli_timeout_secs()));
+        }
         // known findings that are listed as open but were not seen are merely reported
         let open_not_seen: Vec<String> = self
             .known
